@@ -351,8 +351,7 @@ fn probe_code(len: usize, pat: u8, params: &ConsensusParameters, with_predicates
     // VM side: the code with its first word replaced by `ret 1` is a predicate
     if with_predicates && len >= 4 {
         let mut pred = bytes.clone();
-        let ret: Vec<u8> = [op::ret(RegId::ONE)].into_iter().collect();
-        pred[..4].copy_from_slice(&ret);
+        pred[..4].copy_from_slice(&ret1());
         let proot = ref_code_root(&pred);
         let p_ok = match guard::catch_any(|| Contract::root_from_code(&pred)) {
             Ok(r) => *r == proot,
@@ -466,13 +465,23 @@ fn pred_input(kind: usize, owner: H256, predicate: Vec<u8>, gas_used: u64, param
     }
 }
 
-fn pred_tx(kind: usize, owner: H256, predicate: &[u8], gas_used: u64, params: &ConsensusParameters) -> Script {
-    let script: Vec<u8> = [op::ret(RegId::ONE)].into_iter().collect();
-    let mut b = TransactionBuilder::script(script, vec![]);
+fn ret1() -> Vec<u8> {
+    [op::ret(RegId::ONE)].into_iter().collect()
+}
+
+/// `gas` = predicate gas of input 0 and (message-data kind only) of the helper input.
+fn pred_tx(kind: usize, owner: H256, predicate: &[u8], gas: (u64, u64), params: &ConsensusParameters) -> Script {
+    let mut b = TransactionBuilder::script(ret1(), vec![]);
     b.with_params(params.clone());
     b.script_gas_limit(10_000);
     b.max_fee_limit(0);
-    b.add_input(pred_input(kind, owner, predicate.to_vec(), gas_used, params));
+    b.add_input(pred_input(kind, owner, predicate.to_vec(), gas.0, params));
+    if kind == 2 {
+        // a message with data cannot pay fees: add a spendable coin guarded by the bare
+        // `ret 1` predicate under ITS reference owner, so that only input 0 varies
+        let helper = ret1();
+        b.add_input(pred_input(0, ref_owner(&ref_code_root(&helper)), helper, gas.1, params));
+    }
     b.finalize()
 }
 
@@ -492,12 +501,12 @@ fn probe_predicate_vm(
     let exp = ref_owner(proot);
 
     // the gas a `ret 1` predicate of this length uses (estimation ignores the owner)
-    let mut est = pred_tx(kind, exp, pred, 0, params);
+    let mut est = pred_tx(kind, exp, pred, (0, 0), params);
     let r = guard::catch_any(|| est.estimate_predicates(&cp, MemoryInstance::new(), &st));
     if !matches!(r, Ok(Ok(()))) {
         panic!("harness: estimation of a `ret 1` predicate of {} bytes ({}) failed: {r:?}", pred.len(), PRED_KINDS[kind]);
     }
-    let gas_used = est.inputs_predicate_gas(0);
+    let gas_used = (est.inputs_predicate_gas(0), if kind == 2 { est.inputs_predicate_gas(1) } else { 0 });
 
     let mut owners = vec![(None, exp)];
     owners.extend(FLIP_BITS.iter().map(|b| (Some(*b), flip(&exp, *b))));
